@@ -2,11 +2,12 @@
     Model: coq/Py/Pattern.v (generation/src/proof_generation/pattern.py).  [expand] is the full notation
     expansion into the checker's [pat]; [p_inst]/[p_esubst]/[p_ssubst] are the same Python methods on
     notation-free patterns.  Fuel: every statement is of the form "whenever the function returns";
-    [C12_*_terminates] (Py/Termination.v) shows that it always returns for enough fuel.
+    the [C12_*_total] theorems (Py/Termination.v, Py/Total.v) show that it does return, with the same answer,
+    as soon as the fuel reaches the structural measure [dm] of the arguments.
     The theorems hold for every flag configuration with the listed repairs; [_refuted] theorems exhibit
     a witness for each missing repair (replayed on the implementation by harness/c12.py). *)
 From Coq Require Import NArith List Bool.
-From Pi2 Require Import ML.Syntax Py.Pattern Py.PatFacts Py.MetaFacts Py.ExpandFacts Py.Witness.
+From Pi2 Require Import ML.Syntax Py.Pattern Py.PatFacts Py.MetaFacts Py.ExpandFacts Py.Termination Py.Total Py.Witness.
 Import ListNotations.
 Open Scope N_scope.
 
@@ -92,6 +93,30 @@ Theorem C12_metavars_exact : forall f p, psubfree p = true ->
   forall k, In k (metavars p) <-> In k (p_metavars (expand f p)).
 Proof. intros f p Hp k. split; [apply metavars_exact; exact Hp|apply metavars_incl]. Qed.
 Print Assumptions C12_metavars_exact.
+
+(** ---- total correctness: out of fuel is impossible beyond the structural measure [dm] ---- *)
+Theorem C12_py_eq_total : forall f, f_mv_keep_subst f = true -> f_inst_extend f = true ->
+  forall a b n, (dm a one + dm b one <= n)%nat -> py_eq f n a b = Some (pat_eqb (expand f a) (expand f b)).
+Proof. exact py_eq_total. Qed.
+Theorem C12_fresh_total : forall f, f_mv_keep_subst f = true -> f_inst_extend f = true -> f_fresh_simplify f = true ->
+  forall p x n, (dm p one <= n)%nat -> py_fresh f n p x = Some (e_fresh (expand f p) x).
+Proof. exact py_fresh_total. Qed.
+Theorem C12_inst_total : forall f, f_mv_keep_subst f = true -> f_inst_extend f = true ->
+  forall p d n, (dm p (E d) <= n)%nat ->
+  exists r, py_inst f n p d = Some r /\ expand f r = p_inst f (expand f p) (expand_delta f d).
+Proof. exact py_inst_total. Qed.
+Theorem C12_esubst_total : forall f, f_mv_keep_subst f = true -> f_inst_extend f = true ->
+  forall p x g n, (dm p one <= n)%nat ->
+  exists r, py_esubst f n p x g = Some r /\ expand f r = p_esubst f (expand f p) x (expand f g).
+Proof. exact py_esubst_total. Qed.
+Theorem C12_ssubst_total : forall f, f_mv_keep_subst f = true -> f_inst_extend f = true ->
+  forall p x g n, (dm p one <= n)%nat ->
+  exists r, py_ssubst f n p x g = Some r /\ expand f r = p_ssubst f (expand f p) x (expand f g).
+Proof. exact py_ssubst_total. Qed.
+Theorem C12_hnf_terminates : forall f, f_inst_extend f = true ->
+  forall n p, (dm p one <= n)%nat -> exists h, hnf f n p = Some h /\ (dm h one <= dm p one)%nat /\ is_inst h = false.
+Proof. exact hnf_terminates. Qed.
+Print Assumptions C12_py_eq_total.
 
 (** ---- non-vacuity: the functions do return on notation-laden inputs ---- *)
 Example C12_ex_eq : py_eq flags_sound 20 (and_p (PEVar 1) (neg_p (PEVar 2)))
